@@ -182,6 +182,8 @@ def keyword_oracle(prop, kw, is_fn, listed, cfg, r):
     want = squash(plain(listed))
     if squash(plain(val)) != want:
         return 'expected the listed keyword %r, got %r' % (listed, val)
+    if plain(val) != plain(val).strip():
+        return 'the keyword is written with surrounding blanks: %r (between %r and %r)' % (val, prop + between, after)
     return None
 
 
